@@ -289,6 +289,34 @@ def main():
     except Exception:
         missing.append('ignore_color_lut_data')
     A('def Gen.colorLutElems : List Nat := [' + ', '.join(str(x) for x in lut) + ']')
+    # element numbers of group 0x7FE0 that ignore_pixel_data covers: either
+    #   elem.tag == Tag(0x7fe0, E)            or   elem.tag.group == 0x7fe0 and elem.tag.elem in (E, ...)
+    pix = []
+    f = find_func(extract.body, 'ignore_pixel_data')
+    try:
+        ok_group = False
+        for n in ast.walk(f):
+            if isinstance(n, ast.Call) and getattr(n.func, 'attr', getattr(n.func, 'id', '')) == 'Tag' \
+                    and len(n.args) == 2 and all(isinstance(a, ast.Constant) for a in n.args) and n.args[0].value == 0x7fe0:
+                pix.append(n.args[1].value); ok_group = True
+            if isinstance(n, ast.Compare) and len(n.ops) == 1:
+                left = ast.unparse(n.left)
+                if isinstance(n.ops[0], ast.Eq) and left.endswith('.group') and isinstance(n.comparators[0], ast.Constant) \
+                        and n.comparators[0].value == 0x7fe0:
+                    ok_group = True
+                if left.endswith('.elem'):
+                    c = n.comparators[0]
+                    if isinstance(n.ops[0], ast.In) and isinstance(c, (ast.Tuple, ast.List)) and all(isinstance(e, ast.Constant) for e in c.elts):
+                        pix += [e.value for e in c.elts]
+                    elif isinstance(n.ops[0], ast.Eq) and isinstance(c, ast.Constant):
+                        pix.append(c.value)
+        if not ok_group or not pix:
+            raise ValueError
+    except Exception:
+        missing.append('ignore_pixel_data')
+        pix = []
+    A('/-- elements of group 0x7FE0 that `ignore_pixel_data` refuses (PixelData 0x10, FloatPixelData 0x8, DoubleFloatPixelData 0x9) -/')
+    A('def Gen.pixelDataElems : List Nat := [' + ', '.join(str(x) for x in sorted(set(pix))) + ']')
     A('')
 
     # the two TM conversion functions: identical modulo docstring?
